@@ -110,7 +110,9 @@ def gen_case(r, kind, cfg):
         m = 1
         for x in s: m *= x
         return m
-    same_dummy = r.random() < 0.8
+    # rex gives every dummy the sender's default output; distinct dummy payloads are only generated for "linear" (with the
+    # -1e9 mask, float32 absorbs the query shift and which of several equal dummy knots is hit is a rounding artefact)
+    same_dummy = (r.random() < 0.8) or ro
     fvals, ivals = [], []
     dflt_f = [F(r.randint(-64, 64), 8) for _ in range(numel(shape_f))]
     dflt_i = [r.randint(-20, 20) for _ in range(numel(shape_i))]
